@@ -25,6 +25,7 @@ of run(), the logging record of the crash message, and the instrumented ItemSour
 import asyncio
 import logging
 import signal
+import time
 
 from harness import vloop
 from wpull.application.app import Application
@@ -40,8 +41,15 @@ class Livelock(BaseException):
     """The code under test kept the CPU without ever yielding to the event loop."""
 
 
+_watch = {'t0': 0.0, 'limit': 0.5}
+
+
 def _alarm(signum, frame):
-    raise Livelock()
+    # ITIMER_VIRTUAL counts the CPU time of all threads of the process (the driver runs TLC jobs in background
+    # threads); the verdict is about the thread executing the code under test only
+    if time.thread_time() - _watch['t0'] >= _watch['limit']:
+        raise Livelock()
+    signal.setitimer(signal.ITIMER_VIRTUAL, _watch['limit'])
 
 
 class _Boom(object):
@@ -314,6 +322,7 @@ class Run(object):
         lg.propagate = False
         lg.setLevel(logging.ERROR)
         old = signal.signal(signal.SIGVTALRM, _alarm)
+        _watch['t0'], _watch['limit'] = time.thread_time(), self.watchdog_s
         signal.setitimer(signal.ITIMER_VIRTUAL, self.watchdog_s)
         try:
             try:
